@@ -67,6 +67,10 @@ pub mod verif {
     pub use super::connection::TcpConnection;
 }
 
+/// Verification hooks: the real `TcpTransport` behind a public facade. Adds code only.
+#[cfg(feature = "verif")]
+pub mod verif_transport;
+
 pub mod config;
 
 /// Logging target for the file.
